@@ -825,6 +825,7 @@ def check_C19(ctx):
         ("hist-touching", lines_gen(5 if q else 7, 2, 2, ["M2", "M2u"], blank=False, pairs=True, pair_kind="M1", max_code=3)),
         # elements wholly on one line behind code, inside and around unwrap-blocks that expire later
         ("hist-tail", lines_gen(6 if q else 8, 2, 2, ["T1", "T2u"], blank=False, tail=True, max_code=2 if q else 3)),
+        ("hist-tail-blank", lines_gen(5 if q else 7, 2, 2, ["T1", "T2u"], blank=True, tail=True, max_code=1 if q else 2)),
     ]
     for (name, g) in sets:
         g["base"] = "GenHist"
